@@ -119,6 +119,9 @@ pub fn run(cfg: &Config) -> i32 {
         }
     };
     if let Some(c) = r.code {
+        if c == 0 && cfg.prop == "C01" {
+            return c01_instruction_clock(cfg);
+        }
         if (0..=2).contains(&c) {
             return c;
         }
@@ -146,6 +149,32 @@ pub fn run(cfg: &Config) -> i32 {
     }
     eprintln!("harness error: the batch child died ({how}) but no single run reproduces the death in isolation");
     2
+}
+
+/// C01's linear-work clause under the instruction clock (see `scale.rs`), run after a clean
+/// batch; its findings are merged into the evidence file the batch child wrote.
+fn c01_instruction_clock(cfg: &Config) -> i32 {
+    if std::env::var_os("SIM_NO_SCALE").is_some() {
+        return 0;
+    }
+    let (code, frag) = crate::scale::run(cfg);
+    if cfg.write_evidence && frag != J::Null {
+        let path = format!("{}/evidence/{}.json", cfg.verif_dir, cfg.prop);
+        if let Ok(s) = std::fs::read_to_string(&path) {
+            if let Ok(mut j) = J::parse(&s) {
+                if let Some(cov) = j.get("coverage").cloned() {
+                    let mut cov = cov;
+                    cov.set("instruction_clock_scaling", frag);
+                    j.set("coverage", cov);
+                    if code == 1 {
+                        j.set("violations", J::int(1));
+                    }
+                    let _ = std::fs::write(&path, j.to_pretty());
+                }
+            }
+        }
+    }
+    code
 }
 
 fn crashes(case: &Case, dir: &str) -> Option<String> {
